@@ -10,7 +10,8 @@ ID = 'C13'
 LEVEL = 'exploration'
 RULE = ('documents = every sequence of <= n headings over the class levels (chapter..subsubsection, arbitrary level jumps), each '
         'unit with a unique body marker (plus text before the first heading), variants {plain, footnote + label + colliding '
-        'titles with forbidden characters}; x split-level -10..6 x filename templates x bad-chars x renderer/theme. '
+        'titles with forbidden characters, identical twin units, heading-only last unit}; plus section + every sequence over '
+        'subsubsection..subsubparagraph and the full 7-level chain; x split-level -10..6 x filename templates x bad-chars (x substitute: hyphen, empty, two underscores) x renderer/theme. '
         'Oracle: a unit owns a file iff its level <= split level (one file for a single-name template); body markers are '
         'partitioned over the files exactly as ownership predicts, each exactly once, in document order, footnote text after '
         'the body text of its file; file names free of forbidden characters and identical on a second render. '
@@ -20,7 +21,9 @@ ASSUMPTIONS = [
     'markers are unique words, so "appears once in main text" is measured as one occurrence in all output files',
 ]
 
-LEVELS = {'chapter': 0, 'section': 1, 'subsection': 2, 'subsubsection': 3}
+LEVELS = {'chapter': 0, 'section': 1, 'subsection': 2, 'subsubsection': 3, 'paragraph': 4, 'subparagraph': 5,
+          'subsubparagraph': 6}
+DEEP_UNITS = ['subsubsection', 'paragraph', 'subparagraph', 'subsubparagraph']
 CLASS_UNITS = {'book': ['chapter', 'section', 'subsection', 'subsubsection'], 'article': ['section', 'subsection', 'subsubsection']}
 TEMPLATES = {
     'default': 'index [$id, sect$num(4)]',
@@ -40,7 +43,10 @@ def marker(kind, i):
 
 
 def twin_units(units, variant):
-    """indexes of the units that are written identically (variant 'twins': the last two units when they have the same level)"""
+    """indexes of the units without a body marker of their own: the two identically written last units of variant 'twins',
+    the heading-only last unit of variant 'bare'"""
+    if variant == 'bare' and units:
+        return (len(units) - 1,)
     if variant == 'twins' and len(units) >= 2 and units[-1] == units[-2]:
         return (len(units) - 2, len(units) - 1)
     return ()
@@ -54,7 +60,10 @@ def document(cls, units, variant):
             # two structurally identical units: same title, same text, same footnote
             body.append('\\%s{Twin}Same bqppz\\footnote{fqppz}\n\n' % u)
             continue
-        if variant in ('plain', 'twins'):
+        if variant == 'bare' and i == len(units) - 1:
+            body.append('\\%s{%s}\n\n' % (u, marker('t', i)))        # a heading-only unit at the end of the document
+            continue
+        if variant in ('plain', 'twins', 'bare'):
             title = marker('t', i)
         else:
             title = 'Same: title/x'           # colliding titles with forbidden characters
@@ -96,6 +105,8 @@ def judge(case, second=False):
     cfg = {('files', 'split-level'): split, ('files', 'filename'): TEMPLATES[tname], ('general', 'theme'): th}
     if bad is not None:
         cfg[('files', 'bad-chars')] = bad
+    if case.get('sub') is not None:
+        cfg[('files', 'bad-chars-sub')] = case['sub']
     out = render.render(src, rname, cfg)
     single = tname in SINGLE
     own = owners(units, split, single)
@@ -114,7 +125,7 @@ def judge(case, second=False):
     twins = twin_units(units, variant)
     bm = [marker('b', i) for i in range(len(units) + 1)]
     groups = {}
-    if twins:
+    if twins and variant == 'twins':
         # identical units: the shared body word must occur once per twin, distributed over the files as ownership says,
         # and the shared footnote text exactly as often as the body word in every file
         import collections
@@ -178,13 +189,18 @@ def judge(case, second=False):
 
 def run_block(block):
     cls, units, variant, tname, bad, theme, splits, twice = block
+    sub = None
+    if isinstance(bad, tuple):
+        bad, sub = bad
     rep = core.Report()
     for split in splits:
         case = {'cls': cls, 'units': list(units), 'variant': variant, 'split': split, 'template': tname, 'bad': bad,
                 'theme': theme}
+        if sub is not None:
+            case['sub'] = sub
         v, names, info, src = judge(case)
         own = owners(units, split, tname in SINGLE)
-        rep.case(key=(cls, units, variant, split, tname, bad, theme), nontrivial=len(set(own)) >= 2,
+        rep.case(key=(cls, units, variant, split, tname, bad, sub, theme), nontrivial=len(set(own)) >= 2,
                  outcome=(tuple(names) if isinstance(names, list) else repr(names), info))
         rep.count('theme_' + theme)
         if v != 'ok':
@@ -237,6 +253,34 @@ def shapes(cls, n):
     return out
 
 
+def extra_blocks(n):
+    """forbidden characters deleted (empty substitute) or replaced by two characters; heading-only last unit; the three
+    sectioning levels below subsubsection"""
+    blocks = []
+    splits = list(range(-10, 7))
+    for units in shapes('article', 2):
+        if units:
+            blocks.append(('article', units, 'rich', 'idtitle', (None, ''), 'XHTML', [-10, 1, 2, 3], False))
+            blocks.append(('article', units, 'rich', 'idtitle', (' :', ''), 'HTML5min', [1, 2], False))
+            blocks.append(('article', units, 'rich', 'idtitle', (None, '__'), 'HTML5min', [1, 2], False))
+    for units in shapes('book', n):
+        if units:
+            blocks.append(('book', units, 'bare', 'default', None, 'XHTML', [-10, 0, 1, 2, 3, 6], False))
+            if len(units) <= 2:
+                blocks.append(('book', units, 'bare', 'idtitle', None, 'HTML5', [0, 1, 2, 3], False))
+    deep = [()]
+    for k in range(1, n + 1):
+        deep += list(itertools.product(DEEP_UNITS, repeat=k))
+    for units in deep:
+        if units:
+            blocks.append(('article', ('section',) + units, 'plain', 'default', None, 'XHTML', splits, False))
+    chain = ('chapter', 'section', 'subsection', 'subsubsection', 'paragraph', 'subparagraph', 'subsubparagraph')
+    for theme in THEMES:
+        blocks.append(('book', chain, 'plain', 'default', None, theme, splits, False))
+        blocks.append(('book', chain, 'bare', 'default', None, theme, splits, False))
+    return blocks
+
+
 def run(tier, seed, rep):
     state.pristine()
     quick = tier == 'quick'
@@ -255,6 +299,7 @@ def run(tier, seed, rep):
         for units in shapes('book', 2):
             for t in ('num3', 'single', 'single_var', 'short_static'):
                 blocks.append(('book', units, 'rich', t, None, 'XHTML', [-10, 0, 1, 2, 6], False))
+        blocks += extra_blocks(2)
     else:
         for cls, n in (('book', 4), ('article', 4)):
             for units in shapes(cls, n):
@@ -271,6 +316,7 @@ def run(tier, seed, rep):
                             for bad in bads:
                                 blocks.append((cls, units, variant, t, bad, theme, splits,
                                                len(units) <= 2 and t == 'default' and theme == 'HTML5'))
+        blocks += extra_blocks(3)
     blocks = core.rotate(blocks, seed)
     core.merge_all(run_block, blocks, rep, chunksize=1)
     return {'exhaustive': True, 'bounds': {'units': 3 if quick else 4, 'split_levels': '-10..6', 'templates': list(TEMPLATES),
